@@ -92,10 +92,15 @@ def run(ctx):
                 "lookup:after-miss / update:after-lookup and released in a scripted order, interleaved with deletes / prunes / "
                 "updates executed by the scheduler and with DeleteShard / PruneShard goroutines parked at every unlink while "
                 "further updates are begun (they must block); every case ends with the linearizability verdict over all "
-                "interval-respecting orders. cla: two worlds (single-network; multi-network with 5 gateways), 5 services (plain, "
-                "persistent-session, cluster-local, node-local, DestinationRule minHealthPercent), 2-3 per case; 2-7 index ops through "
-                "DiscoveryServer.EDSUpdate / SvcUpdate / RemoveShard / PruneShard; pushes (sotw or delta) for 1-2 of 4 proxies over 4-6 "
-                "watched clusters with the recorded, merged, non-forced PushRequest. "
+                "interval-respecting orders. cla: two worlds (single-network; multi-network with 7 gateways incl. two clusters of one "
+                "network, an ambient-only, an IPv6 and an IPv4-mapped one), 5 services (plain, persistent-session, cluster-local, "
+                "node-local, DestinationRule minHealthPercent), 2-3 per case; 2-7 steps: index ops through DiscoveryServer.EDSUpdate / "
+                "SvcUpdate / RemoveShard / PruneShard, DestinationRule updates (subsets re-labelled, rule deleted, rule created), a "
+                "namespace-wide PeerAuthentication DISABLE created / deleted, CDS-time service-endpoint queries; every resulting "
+                "PushRequest goes through DiscoveryServer.Push (cache drop, new PushContext) and is merged per connection; pushes "
+                "(sotw or delta, with delta.go's removal rule) over 4-6 watched clusters for p1 plus one of five proxies that differ "
+                "from it in exactly one cache-key component (cluster, node, network view, IPv6-only, dual stack) - always back to "
+                "back - or for one or two of nine proxies. "
                 "distinct = hash of (ops, implementation outputs); non-trivial = at least one op")
     ctx.assumptions = [
         "sync.Mutex / RWMutex give atomic critical sections (lock-region granularity of the concurrent model)",
@@ -108,9 +113,13 @@ def run(ctx):
         "(hypothesis hc of member_pushable: the registries derive the flag from Service.SupportsUnhealthyEndpoints, the builder from "
         "the same service plus the DestinationRule's minHealthPercent); the cla generator sets the flag from the process default",
         "membership model: sidecar proxy, ambient multi-network off, no waypoint / self-discovery / inference-pool cluster, no HBONE "
-        "tunnel labels, no locality-LB distribute/failover (priorities stay 0), no DestinationRule TLS settings / PeerAuthentication "
-        "(mTLS enabled iff TLSMode = istio); gateway addresses are IPs; netutil.IsValidIPAddress abstracted to a character-class "
-        "test that agrees on the generated addresses",
+        "tunnel labels, no locality-LB distribute/failover (priorities stay 0), no DestinationRule TLS settings; a PeerAuthentication is "
+        "absent or disables mTLS namespace-wide (mTLS enabled iff TLSMode = istio and not disabled); gateway addresses are IPs; "
+        "netutil.IsValidIPAddress abstracted to a character-class test that agrees on the generated addresses",
+        "the PushRequests that follow SvcUpdate(EventDelete) / RemoveShard / PruneShard are fabricated by the harness in the shape their "
+        "callers use (bootstrap serviceHandler: ConfigsUpdated {ServiceEntry host/ns}; multicluster cluster removal: Forced); the ones "
+        "for endpoint updates and for DestinationRule / PeerAuthentication changes are real (EDSUpdate) resp. of the shape of the "
+        "config handler (ConfigsUpdated {kind name/ns})",
         "every IstioEndpoint on the cluster's port has at least one address (possibly empty string): all registries guarantee it; "
         "BuildClusterLoadAssignment indexes Addresses[0] before filterIstioEndpoint's len(Addresses)==0 guard (corpus cla.nil-address)",
         "pushType_sound's last clause assumes distinct endpoint keys inside one shard (noPush_dupkey_witness shows the corner)",
@@ -203,8 +212,12 @@ MANIFEST = {
                    "proved on orphan-free schedules. Membership: the ClusterLoadAssignment is a permutation of the read shards' endpoints "
                    "that satisfy memberSpec - the clause written from the property text (member_eq_spec, membership_exact_spec) - one "
                    "non-empty group per locality, weights = saturating sums (grouped_by_locality, weights_consistent); in multi-network "
-                   "meshes the gateway endpoints of a locality carry exactly the shares of that locality's remote members "
-                   "(gateway_weight_per_locality, no_phantom_gateway); served_endpoints_exact(_concurrent) composes the parts. The models "
+                   "meshes routeSpec - written from the text: same / unknown network or no gateway => own address, remote => never own address, with "
+                   "mTLS and a reachable gateway split among the gateways, else not served - equals the filter's decision (route_satisfies_spec, "
+                   "routeSpec_unique, selectGws_spec, reachableGws_spec), the gateway endpoints of a locality carry exactly the saturating sum "
+                   "of the shares of that locality's remote members (gateway_weight_per_locality, no_phantom_gateway), and "
+                   "served_endpoints_exact_net relates what is served there to the latest reports; service_endpoints_exact does so for the "
+                   "CDS-time snapshot (CopyEndpoints / ServiceEndpointsByPort); served_endpoints_exact(_concurrent) composes the parts. The models "
                    "are tied to /repo on every run by three line-by-line differentials against the real code, the third one through "
                    "DiscoveryServer.EDSUpdate, the recorded non-forced PushRequest and the real EdsGenerator (partial pushes, XdsCache)."),
     "level_note": ("Trusted: Lean kernel + {propext, Classical.choice, Quot.sound}; the hand-written models, tied by differential testing "
@@ -218,9 +231,12 @@ MANIFEST = {
                    "self-discovery, inference-pool and HBONE-tunnel endpoints, DestinationRule TLS / PeerAuthentication in the mTLS "
                    "decision, CDS-time FromServiceEndpoints; DeleteShard / PruneShard are single regions in the concurrent model (lock "
                    "discipline checked on the real code; write regions of earlier-looked-up updates inside their loop are outside the "
-                   "theorem); linearizability is about index state. Defects found and fixed in /repo: F4 lost update when a delete "
-                   "unlinks the shard set inside an update's lookup->lock window (16f5918); slices.EqualUnordered compared by "
-                   "containment, so IstioEndpoint.Equals / NoPush missed an address list whose multiplicities changed (8c9910a)."),
+                   "theorem); linearizability is about index state. Of loadbalancer.go ('consistent weights under DestinationRule LB settings') "
+                   "only this is covered: endpoint weight >= 1, locality weight = saturating sum, even split among gateways, priorities observed "
+                   "to stay 0 in the tested configurations; failover / distribute / zone-aware are not. Defects found and fixed in /repo: F4 "
+                   "lost update when a delete unlinks the shard set inside an update's lookup->lock window (16f5918); slices.EqualUnordered "
+                   "compared by containment, so IstioEndpoint.Equals / NoPush missed an address list whose multiplicities changed (8c9910a); "
+                   "locality and gateway weights wrapped around uint32 after the network filter (ace8a3e)."),
     "technique": ("Lean 4 theorems over exact models of the endpoint index (sequential and lock-region concurrent) and of EDS membership "
                   "+ differential correspondence with the real Go code, including scripted goroutine interleavings through gate hooks"),
     "design_ref": "DESIGN.md section 5 C13",
